@@ -1816,6 +1816,13 @@ insert_list:
         if (likely(ret < 0 && errno == -1)) {
             auto o = owner.load(std::memory_order_acquire);
             if (unlikely(o != CURRENT)) { assert(_contending); goto again; }
+        } else {
+            // timed out or interrupted: an unlock() running on another vCPU may
+            // have read this thread as the head waiter just before it left the
+            // queue and is about to lock this->lock; it holds splock meanwhile.
+            // Let it finish before returning, the caller is free to exit (and
+            // have its stack released) right away.
+            SCOPED_LOCK(splock);
         }
         return waitq_translate_errno(ret);
     }
